@@ -2,6 +2,7 @@
 import ast
 import importlib
 import json
+import shutil
 import os
 import re
 import sys
@@ -289,6 +290,69 @@ def run(ctx):
                         ctx.violation("R5:%s:%s" % (label, z), {"corpus": label, "zone": z, "diff": d},
                                       "%s: zone %s behaves differently in the basic and the extended build at %s: %s" % (label, z, sweeplib.iso(d["t"]), json.dumps(d)[:400]))
             ctx.count("R5_zones_" + label, len(shared))
+    # ---- R1c: an artifact does not depend on what the same interpreter compiled before it ----
+    # (scripts import the generators and compile several scopes / languages / sources in one process)
+    import subprocess
+    seqs = [[("seconds", "basic", "arduino"), ("seconds", "extended", "arduino"), ("names", "extended", "python"), ("names", "basic", "python"),
+             ("names", "basic", "arduino"), ("seconds", "extended", "python"), ("seconds", "basic", "python"), ("names", "extended", "arduino")],
+            [("names", "extended", "arduino"), ("seconds", "extended", "python"), ("seconds", "extended", "arduino"), ("seconds", "basic", "arduino"),
+             ("names", "basic", "python"), ("names", "extended", "python"), ("seconds", "basic", "python"), ("names", "basic", "arduino")]]
+    yrs = {l_: (sy_, uy_) for l_, s_, sy_, uy_ in srcs}
+    for si, seq in enumerate(seqs):
+        jl = []
+        for k_, (label, scope, lang) in enumerate(seq):
+            fresh = results["%s_%s_%s_0" % (label, scope, lang)]
+            ea = []
+            if lang == "arduino":
+                ea += ["--db_namespace", "ns" + scope[0]]
+                if label == "seconds":
+                    ea += ["--generate_zone_strings"]
+            jl.append({"input_dir": fresh["indir"], "output_dir": os.path.join(work, "inproc_%d_%d.out" % (si, k_)), "scope": scope, "language": lang,
+                       "start_year": yrs[label][0], "until_year": yrs[label][1], "tz_version": "c20", "extra_args": ea})
+            if os.path.exists(jl[-1]["output_dir"]):
+                shutil.rmtree(jl[-1]["output_dir"])
+        jf = os.path.join(work, "inproc_%d.json" % si)
+        json.dump(jl, open(jf, "w"))
+        env = dict(os.environ, PYTHONHASHSEED="0", PYTHONDONTWRITEBYTECODE="1", PYTHONPATH=os.path.join(vt.REPO, "tools"))
+        pr = subprocess.run([compilelib.PY, os.path.join(vt.VERIF, "pylib", "tzc_inproc.py"), jf, os.path.join(vt.REPO, "tools")],
+                            stdout=subprocess.PIPE, stderr=subprocess.PIPE, text=True, env=env)
+        rcs = {int(l.split()[1]): int(l.split()[2]) for l in pr.stdout.splitlines() if l.startswith("JOB ")}
+        for k_, (label, scope, lang) in enumerate(seq):
+            tag = "%s/%s/%s" % (label, scope, lang)
+            fresh = results["%s_%s_%s_0" % (label, scope, lang)]
+            if fresh["rc"] != 0:
+                continue
+            hist = " ; ".join("%s/%s/%s" % x for x in seq[:k_]) or "(nothing)"
+            if rcs.get(k_) != 0:
+                ctx.violation("R1c-failed:%s:%s" % (scope, lang), {"artifact": tag, "compiled_before": hist, "stderr": pr.stderr[-1200:]},
+                              "%s: the compiler succeeds in a fresh interpreter but fails (rc %s) after compiling %s in the same interpreter: %s" %
+                              (tag, rcs.get(k_), hist, pr.stderr[-400:]))
+                continue
+            od = jl[k_]["output_dir"]
+            fa, fb = sorted(os.listdir(fresh["outdir"])), sorted(os.listdir(od))
+            if fa != fb:
+                ctx.violation("R1c-fileset:%s:%s" % (scope, lang), {"artifact": tag, "compiled_before": hist}, "%s: other set of files after compiling %s in the same interpreter" % (tag, hist))
+            for f in fa:
+                if f not in fb:
+                    continue
+                ta, tb = open(os.path.join(fresh["outdir"], f)).read(), open(os.path.join(od, f)).read()
+                ctx.evaluations += 1
+                if k_ > 0:
+                    nt.add((label, scope, lang, "R1c", f, si))
+                if f == "tzdb.json":
+                    ja, jb = json.loads(ta), json.loads(tb)
+                    for k in ("removed_zones", "removed_links", "removed_policies", "notable_zones", "notable_links", "notable_policies"):
+                        ja[k] = {n: sorted(v) for n, v in ja[k].items()}
+                        jb[k] = {n: sorted(v) for n, v in jb[k].items()}
+                    same, first = ja == jb, "tzdb.json content"
+                else:
+                    ca, cb = canon(ta), canon(tb)
+                    same = ca == cb
+                    first = next((("%r vs %r" % (x[:120], y[:120])) for x, y in zip(ca, cb) if x != y), "length differs") if not same else ""
+                if not same:
+                    ctx.violation("R1c:%s:%s:%s" % (scope, lang, f), {"artifact": tag, "file": f, "compiled_before": hist, "first_difference": first},
+                                  "%s: %s differs from the fresh-interpreter compilation when %s was compiled before it in the same interpreter: %s" % (tag, f, hist, first))
+    ctx.count("in_process_compilation_sequences", len(seqs))
     # ---- R6: the Python database checked into the repository ----
     sys.path.insert(0, os.path.join(vt.REPO, "tools"))
     try:
